@@ -1,5 +1,91 @@
 //! physim — deterministic simulation with fault injection for the lora-phy drivers (C14, C18).
+//! See /verif/DESIGN.md (sections 3, 4 "Chip models", 6 C14/C18, appendix B).
+
+pub mod c14;
+pub mod c18;
+pub mod chip126x;
+pub mod chip127x;
+pub mod rig;
+pub mod world;
+
+use simcore::*;
+use std::path::Path;
+
+pub fn components_phy() -> serde_json::Value {
+    serde_json::json!({
+        "real": [
+            "lora_phy::LoRa (mode-tracking layer)", "lora_phy::sx126x::Sx126x (Sx1261, Sx1262, Stm32wl variants)",
+            "lora_phy::sx127x::Sx127x (Sx1272, Sx1276 variants)", "lora_phy::lorawan_radio::LorawanRadio (PhyRxTx adapter)",
+            "lora_phy::interface::SpiInterface"
+        ],
+        "stub": [
+            "radio chip (ChipModel126x / ChipModel127x: register file, mode machine incl. RxDutyCycle sleep phases, IRQ flag/mask logic, data buffer wrapping at 256, configuration-validity bits, BUSY timing, lying mode)",
+            "SPI bus (SimSpi: SpiDevice<u8>, fault = transaction not delivered + error)", "BUSY / IRQ / reset lines and RF switch (SimIv: InterfaceVariant)",
+            "delay and clock (SimDelay: DelayNs over the simulated microsecond clock)", "application / MAC above the adapter (the script calls PhyRxTx directly)"
+        ]
+    })
+}
+
+fn usage() -> i32 {
+    eprintln!("usage: physim check <C14|C18> <quick|thorough>\n       physim replay <file>\n       physim selftest");
+    EXIT_HARNESS
+}
+
+macro_rules! dispatch {
+    ($id:expr, $f:ident, $($arg:expr),*) => {
+        match $id {
+            "C14" => $f(&c14::C14, $($arg),*),
+            "C18" => $f(&c18::C18, $($arg),*),
+            other => {
+                println!("HARNESS-ERROR unknown property {other}");
+                EXIT_HARNESS
+            }
+        }
+    };
+}
+
 fn main() {
-    println!("HARNESS-ERROR physim not built yet");
-    std::process::exit(2);
+    let args: Vec<String> = std::env::args().skip(1).collect();
+    let code = match args.first().map(|s| s.as_str()) {
+        Some("check") if args.len() >= 3 => {
+            let tier = match args[2].as_str() {
+                "quick" => Tier::Quick,
+                "thorough" => Tier::Thorough,
+                _ => std::process::exit(usage()),
+            };
+            let tier = match std::env::var("VERIF_TIER").ok().as_deref() {
+                Some("quick") => Tier::Quick,
+                Some("thorough") => Tier::Thorough,
+                _ => tier,
+            };
+            let opts = Opts::from_env(tier);
+            let id = args[1].as_str();
+            dispatch!(id, run_check, &opts)
+        }
+        Some("replay") if args.len() >= 2 => {
+            let path = Path::new(&args[1]);
+            match replay_property(path) {
+                Ok(id) => {
+                    let id = id.as_str();
+                    dispatch!(id, run_replay, path)
+                }
+                Err(e) => {
+                    println!("HARNESS-ERROR {e}");
+                    EXIT_HARNESS
+                }
+            }
+        }
+        Some("selftest") => match c14::self_test().and_then(|_| c18::self_test()) {
+            Ok(()) => {
+                println!("chip models and seams: self-test ok");
+                0
+            }
+            Err(e) => {
+                println!("HARNESS-ERROR self-test failed: {e}");
+                EXIT_HARNESS
+            }
+        },
+        _ => usage(),
+    };
+    std::process::exit(code);
 }
